@@ -136,6 +136,7 @@ def ev_grid(case, rec):
     fe, fn, k0, zw, icm = PRJ_PAR[case['prj']]
     z, hemi = case['zone'], case['hemi']
     cm = cfg.cm_of(case['prj'], z)
+    did_dims = False
     for north in case['norths']:
         y = (north - fn) if hemi == 'South' else north
         easts = np.array(case['easts'], dtype=float)
@@ -175,7 +176,8 @@ def ev_grid(case, rec):
                 rec.fail('inverse grid convergence differs from the exact projection (sign: grid bearing = azimuth + gamma)',
                          site='convert:grid2geo:gridconv', observed=r[3], expected=float(og[j]), tol=TOL_G, case=one, coords=co)
             rec.outcome(('bad-' if bad else 'ok-') + ('continued' if co['continued'] else 'own-side'))
-            if j == 1 and north == case['norths'][1]:
+            if j == 1 and not did_dims and not bad:
+                did_dims = True
                 call_dimensions(rec, case, one, co, z, east, north, hemi, ell, prj, r)
     rec.sample({'case': dict(case, norths=case['norths'][:2])})
 
